@@ -105,24 +105,17 @@ func (sess *UserSession) Move(w *imapserver.MoveWriter, numSet imap.NumSet, dest
 		destUIDs.AddNum(appendData.UID)
 		expunged[msg] = struct{}{}
 	})
-	seqNums := sess.mailbox.expungeLocked(expunged)
+	sess.mailbox.expungeLocked(expunged)
 
-	err = w.WriteCopyData(&imap.CopyData{
+	// The EXPUNGE responses are queued for all sessions, including this one,
+	// and are sent when the connection polls for updates before completing
+	// the command. Writing them here as well would report each removed message
+	// twice, with sequence numbers which are already stale.
+	return w.WriteCopyData(&imap.CopyData{
 		UIDValidity: dest.uidValidity,
 		SourceUIDs:  sourceUIDs,
 		DestUIDs:    destUIDs,
 	})
-	if err != nil {
-		return err
-	}
-
-	for _, seqNum := range seqNums {
-		if err := w.WriteExpunge(sess.mailbox.tracker.EncodeSeqNum(seqNum)); err != nil {
-			return err
-		}
-	}
-
-	return nil
 }
 
 func (sess *UserSession) Poll(w *imapserver.UpdateWriter, allowExpunge bool) error {
